@@ -445,7 +445,9 @@ func driverMain(prop, tier string) int {
 			cmd := exec.Command(exe, "worker", prop, tier, strconv.FormatInt(seed, 10), strconv.Itoa(s), strconv.Itoa(nsh), out)
 			cmd.Stdout = errf
 			cmd.Stderr = errf
-			cmd.Env = append(os.Environ(), "GORACE=halt_on_error=0 log_path="+filepath.Join(work, fmt.Sprintf("race%d", s)))
+			// the workers' scratch directories live below the driver's work directory, which the driver removes when
+			// it ends - also when a worker died and could not clean up after itself
+			cmd.Env = append(os.Environ(), "GORACE=halt_on_error=0 log_path="+filepath.Join(work, fmt.Sprintf("race%d", s)), "VERIF_SCRATCH="+work)
 			if err := cmd.Start(); err != nil {
 				wr[s] = wres{s, err, false}
 				return
